@@ -344,3 +344,33 @@ Definition json_of_tx (t : tx) (h : bytes) : tx_json :=
     (match t_to t with Some a => JS (enc_hexbytes a) | None => JAbsent end)
     (JS (enc_quantity (t_value t))) (JS (enc_hexbytes (t_data t)))
     (JS (enc_quantity (t_v t))) (JS (enc_quantity (t_r t))) (JS (enc_quantity (t_s t))) (JS (enc_hexbytes h)).
+
+(* ---- a transaction OBJECT: the fields plus the `from` cache (atomic.Value holding sigCache) ---- *)
+Section Objects.
+  Variable H : bytes -> bytes.
+  Variable ecrecover : bytes -> bytes -> option bytes.
+
+  (* types.Sender called with each signer of the list in turn on one object *)
+  Fixpoint sender_seq (t : tx) (c : cache) (sgs : list signer) : list (res bytes) * cache :=
+    match sgs with
+    | [] => ([], c)
+    | sg :: rest =>
+      let '(r, c1) := sender_cached H ecrecover sg t c in
+      let '(rs, c2) := sender_seq t c1 rest in (r :: rs, c2)
+    end.
+
+  (* Transaction.WithSignature on an object: cpy := &Transaction{data: tx.data} - the copy starts with
+     an EMPTY cache whatever the original has cached *)
+  Definition with_signature_obj (sg : signer) (o : tx * cache) (sig : bytes) : res (tx * cache) :=
+    match with_signature sg (fst o) sig with
+    | Ok t' => Ok (t', None)
+    | Err e => Err e
+    | Panic => Panic
+    end.
+
+  (* the two halves of types.Sender as separate atomic events, for interleavings of concurrent callers:
+     the Load with the Equal test, and the Store of a pair the caller computed *)
+  Definition cache_load (c : cache) (sg : signer) : option bytes :=
+    match c with Some (sg', a) => if signer_equal sg' sg then Some a else None | None => None end.
+  Definition cache_store (c : cache) (p : signer * bytes) : cache := Some p.
+End Objects.
